@@ -35,7 +35,9 @@ NsMaps == << <<>>, [p |-> U1], [p |-> U2], [q |-> U1], [p |-> U1, q |-> U1], [p 
              [p |-> U1, descendant |-> U1, attribute |-> U2, text |-> U2], [p |-> U2, descendant |-> U2, self |-> U1],
              \* a binding for the EMPTY prefix (people add one hoping for a default namespace): XPath 1.0 has no default
              \* namespace for names in expressions - unprefixed name tests, variables and functions stay in no namespace
-             [x \in {"", "p"} |-> U1], [x \in {"", "p", "q"} |-> IF x = "" THEN U2 ELSE U1] >>
+             [x \in {"", "p"} |-> U1], [x \in {"", "p", "q"} |-> IF x = "" THEN U2 ELSE U1],
+             \* a prefix bound to the EMPTY URI: p:a is the name a in no namespace (not "any namespace")
+             [p |-> <<>>, q |-> U1] >>
 VarsOf(ns) == << [sp |-> <<>>, lo |-> <<"v">>, val |-> StrV(<<"a">>)],
                  [sp |-> U1, lo |-> <<"v">>, val |-> NumV(NInt(2))],
                  [sp |-> U2, lo |-> <<"v">>, val |-> BoolV(TRUE)],
